@@ -338,7 +338,7 @@ def native_oracle(pid, tier="quick", timeout=3000, extra_args=(), script=None):
   res = None
   for line in reversed(out.strip().splitlines()):
     line = line.strip()
-    if line.startswith("{"):
+    if line.startswith("{") or line.startswith("[{"):
       try:
         res = json.loads(line)
         break
